@@ -8,8 +8,12 @@
                                 the redirect branch and sendRedirect's raise)
      plaintext_client_guard    (IdentityGen: handlePLAINTEXTClient statement by statement)
      ev1_identity, attach_key, phase constants (IdentityGen, as in lib/Identity.v)
+     switch_sites, do_negotiation, connection_made_switches (IdentityGen: EVERY caller of switchToBanana / sendDecision /
+                                Tub.brokerAttached in the package, enumerated over all modules; anything else is refused)
    Hand-written here and compared with the real code by the correspondence: the order certificate lookup -> parseLines ->
    `error` test -> evaluateHello inside handleENCRYPTED, handleDECIDING, switchToBanana emptying the buffer.
+   THE PATHS TO switchToBanana are exactly those of switch_sites: handle_encrypted's deciding end (sendDecision), handle_deciding,
+   and connectionMade's non-negotiating branch (b_connection_made; dead because doNegotiation is the constant True).
    Parameters (the theorems hold for EVERY choice, so nothing about them is assumed; lib/IdentityBytesReal.v instantiates
    them with the TRANSLATED parseLines of C13 (strict UTF-8) and the wire-level checks of lib/NegWire.v):
      D, parse    the parsed header block and Negotiation.parseLines (Exc = it raised)
@@ -163,7 +167,28 @@ Definition brecv_chunk (r : role) (my_id target : list Z) (p : presented cert) (
   else let st1 := with_bbuf st (b_buf st ++ chunk) in
        bdrain (S (List.length (b_buf st1))) r my_id target p st1.
 
+(* Negotiation.connectionMade, before the first byte is read.  With doNegotiation true (the only value the translator accepts:
+   a class constant nothing in the package stores to) it only sends; the else-branch `self.switchToBanana({})` would register
+   self.target on a client without any check (and fail with AttributeError on a listener: self.theirTubRef does not exist yet).
+   The else-branch is written down so that the closed world is visible HERE: connection_made_switches / do_negotiation /
+   switch_sites of gen/IdentityGen.v are read from the whole package; bytes_start_is_init (IdentityBytesProofs.v) is the proof
+   that on this tree the branch is dead.  It is dead code of the model too and not compared with the implementation. *)
+Definition b_connection_made_with (switches : bool) (r : role) (target : list Z) : bstate :=
+  if switches
+  then if is_client r
+       then {| b_phase := RP PhBanana; b_their := None; b_attached := [attach_key true target []]; b_buf := []; b_fail := None;
+               b_passed := [] |}
+       else {| b_phase := initial_phase; b_their := None; b_attached := []; b_buf := []; b_fail := Some "AttributeError"%string;
+               b_passed := [] |}
+  else b_init.
+Definition b_connection_made (r : role) (target : list Z) : bstate :=
+  b_connection_made_with (connection_made_switches do_negotiation) r target.
+
 Definition brecv_all (r : role) (my_id target : list Z) (p : presented cert) (chunks : list (list Z)) : bstate :=
-  fold_left (brecv_chunk r my_id target p) chunks b_init.
+  fold_left (brecv_chunk r my_id target p) chunks (b_connection_made r target).
+
+(* handlePLAINTEXTClient / handlePLAINTEXTServer as one function of the role *)
+Definition plain_guard (r : role) (my_id : list Z) (hdr : list Z) : res unit :=
+  if is_client r then plaintext_client_guard decode hdr else plaintext_server_guard decode my_id redirect hdr.
 
 End Bytes.
